@@ -63,19 +63,57 @@ func gradCheck(k *fw.K, in ref.Instr, xs []*ref.T, tracked []bool, g *ref.T, kno
 	}
 	want := ref.VJP(in, xs, y, g, ref.RuleSum)
 	leaves := make([]tensor.Tensor, len(xs))
+	origins := make([]tensor.Tensor, len(xs)) // for a tracked operand that is itself a RESULT: the flat tracked leaf it was reshaped from
 	var ry tensor.Tensor
 	var perr error
 	stage := "forward"
 	if p := call(func() {
 		for i, x := range xs {
+			if tracked[i] && len(x.Data) > 0 && k.Rng.Intn(4) == 0 {
+				// the tracked operand is not a leaf but the result of a shape operation on a tracked leaf; it must receive
+				// the vector-Jacobian product all the same (and its origin the same values, laid out flat)
+				origins[i] = rt.MustLeaf(ref.New([]int{len(x.Data)}, x.Data), true)
+				switch {
+				case len(x.Shape) == 1:
+					var u tensor.Tensor
+					if u, perr = origins[i].UnSqueeze(0); perr == nil {
+						leaves[i], perr = u.Squeeze(0)
+					}
+				default:
+					leaves[i], perr = origins[i].Reshape(ref.CopyInts(x.Shape))
+				}
+				if perr != nil {
+					return
+				}
+				k.Count("tracked_operands_that_are_results_of_a_shape_operation", 1)
+				continue
+			}
 			leaves[i] = rt.MustLeaf(x, tracked[i])
 		}
 		ry, perr = rt.Exec(in, leaves)
 		if perr != nil || ry == nil {
 			return
 		}
+		// between the operation and the weighting sits, one time in three, a pure data-movement consumer of the result
+		// (UnSqueeze at either end, Reshape to flat, Transpose): the weighting goes through the same movement, so the
+		// gradient arriving at the result is still G
+		top, gtop := ry, g
+		if rank := len(y.Shape); k.Rng.Intn(3) == 0 {
+			cons := []ref.Instr{{Op: "unsqueeze", Dim: rank}, {Op: "unsqueeze", Dim: 0}, {Op: "reshape", Shape: []int{len(y.Data)}}}
+			if rank >= 2 {
+				cons = append(cons, ref.Instr{Op: "transpose"})
+			}
+			c := cons[k.Rng.Intn(len(cons))]
+			if gt, e := ref.Apply(c, []*ref.T{g}); e == nil {
+				if top, perr = rt.Exec(c, []tensor.Tensor{ry}); perr != nil {
+					return
+				}
+				gtop = gt
+				k.Count("results_consumed_by_a_"+c.Op+"_before_the_weighting", 1)
+			}
+		}
 		stage = "back-propagation"
-		perr = weightedBackprop(ry, g)
+		perr = weightedBackprop(top, gtop)
 	}); p != nil {
 		k.Failf("%s: panic during %s: %v", name, stage, p)
 		return false
@@ -125,6 +163,19 @@ func gradCheck(k *fw.K, in ref.Instr, xs []*ref.T, tracked []bool, g *ref.T, kno
 			continue
 		}
 		e := gradClose(got, want[i])
+		if e == nil && origins[i] != nil {
+			og := origins[i].Gradient()
+			if og == nil {
+				k.Failf("%s: the tracked leaf that operand %d was reshaped from received no gradient", name, i)
+				ok = false
+				continue
+			}
+			if ov, err := rt.Read(og); err != nil || gradClose(ov, ref.New([]int{len(x.Data)}, got.Data)) != nil {
+				k.Failf("%s: the tracked leaf that operand %d was reshaped from received %v, the operand itself %v (%v)", name, i, ov, got.Data, err)
+				ok = false
+			}
+			continue
+		}
 		if e == nil {
 			continue
 		}
